@@ -31,12 +31,17 @@ EXPECTED_MISS = {
     'C10-r5-3': 'mtime-granularity history, outside any structural rule',
     'C14-r5-2': 'accept set computed by the metaclass at import time '
                 '(C01/C02/C15 decline with exit 2)',
+    'C09-r6-2': 'breaks reload behaviour without a main file (C10.RESET, '
+                'C12 and C20 fire), not the layering order C09 states',
 }
 # seeded changes on which the target check declines (exit 2) instead of
 # reporting the violation
 EXPECTED_INCONCLUSIVE = {
     'C13-r2-2': 'walker rewritten beyond the shapes read',
     'C15-2': 'printer shape not read',
+    'C08-r6-2': 'the gate hands its error back instead of raising it '
+                '(C07.SURFACE / C14.SURFACE report the raise outside the '
+                'gate; C08 declines)',
 }
 # behaviour-preserving rewrites on which a check declines to decide (exit 2:
 # an algorithm was replaced, not restructured).  {patch: {property: why}}
